@@ -101,13 +101,13 @@ def vcs(spec, ctx, outs):
                     res.append(VC(f"component==true-partial[{rname}]:ground", None, None, {"failed": not g, "var": w}))
                     continue
                 res.append(VC(f"component==true-partial[{rname}]", z3.And(ctx.indom, t != ref),
-                              _judge(ctx, idx, pos, ref), {"var": w}))
+                              _judge(ctx, idx, pos, ref, t), {"var": w}))
         elif common.strange(out):
             res.append(common.kind_vc(f"no-foreign-outcome-on-domain[{rname}]", ctx, out, z3.Not(ctx.indom), idx))
     return res
 
 
-def _judge(ctx, idx, pos, ref):
+def _judge(ctx, idx, pos, ref, t=None):
     def judge(val, couts):
         val = common.complete_val(ctx, val)
         o = couts[idx]
@@ -121,5 +121,9 @@ def _judge(ctx, idx, pos, ref):
         got = o["mp_list"][pos]
         if not orc.close(got, r):
             return f"component {pos} is {mpmath.nstr(got, 17)} but the true partial is {mpmath.nstr(r, 17)}"
+        te = common.mp_ref(t, val) if t is not None else None
+        if te is not None and not common.rel_close(te, r) and common.rel_close(got, te, rel=1e-6):
+            return (f"component {pos} is {mpmath.nstr(got, 17)} (the path's formula gives {mpmath.nstr(te, 17)} in exact arithmetic) but the true "
+                    f"partial is {mpmath.nstr(r, 17)}")
         return None
     return judge
